@@ -18,5 +18,8 @@ pat_demo=PASS; go test -vet=off -count=1 -run 'TestDemo' "./$pkg" >/tmp/seedconf
 rm -f "$wt/$pkg/zz_demo_test.go"
 touched="$(git diff --name-only | xargs -n1 dirname | sort -u | sed 's|^|./|' | tr '\n' ' ')"
 suite=PASS; go test -vet=off -count=1 $touched >/tmp/seedconfirm/$name.suite.log 2>&1 || suite=FAIL
+# failures other than the baseline's always-failing network tests
+unexpected=$(grep -E '^--- FAIL: ' /tmp/seedconfirm/$name.suite.log | awk '{print $3}' | grep -v -E '^(TestCipherSuitesBadSSL|TestTLSVersions|TestVerifyHostname|TestFetchRemote)$' | tr '\n' ',')
+[ "$suite" = FAIL ] && [ -z "$unexpected" ] && ! grep -q -E '^(FAIL|---).*\[build failed\]|panic:' /tmp/seedconfirm/$name.suite.log && suite="PASS(only-baseline-network-failures)"
 cd /; git -C /repo worktree remove --force "$wt"
-echo "$name applied=$applied build=$build demo_without_patch=$base_demo demo_with_patch=$pat_demo touched_pkg_tests=$suite touched=$touched"
+echo "$name applied=$applied build=$build demo_without_patch=$base_demo demo_with_patch=$pat_demo touched_pkg_tests=$suite unexpected_failures=[$unexpected] touched=$touched"
